@@ -60,6 +60,16 @@ theorem window_move_keeps_pending_history {β : Type} (B : BufOps β) (dict nice
   EncWindow.flush_inv_move_offset B _ (mkParams_WF dict nice mode mf lzma2 hd hn1 hn2)
     (mkParams_flush dict nice mode mf lzma2 hn2).1 (mkParams_flush dict nice mode mf lzma2 hn2).2 s input h hf hmove
 
+/-- The repair changes nothing in runs without `flush`: for every search and every partition of the input into `write`
+    calls the views shown to the search (positions, look-ahead and look-back bytes, match length limits) - hence the
+    compressed bytes - are the same with the statement before the repair and with the repaired one. -/
+theorem repair_invisible_without_flush (dict nice : Nat) (mode : Mode) (mf : MF) (lzma2 : Bool)
+    (hd : Consts.DICT_SIZE_MIN ≤ dict) (hn1 : 4 ≤ nice) (hn2 : nice ≤ Consts.MATCH_LEN_MAX)
+    (O : Oracle) (parts : List (List Nat)) :
+    traceOf listBuf { mkParams dict nice mode mf lzma2 with pinnedMove := true } O parts =
+      traceOf listBuf { mkParams dict nice mode mf lzma2 with pinnedMove := false } O parts :=
+  EncWindow.repair_invisible_without_flush _ (mkParams_WF dict nice mode mf lzma2 hd hn1 hn2) O parts
+
 /-- Witness: the statement before the repair loses the history of the pending bytes on the state of the
     reproducer (and the repaired one does not). -/
 theorem pinned_move_loses_pending_history :
